@@ -87,6 +87,14 @@ def build(cname):
                 raise TextXError('bad wire')
             w.processed = True
         mm.register_obj_processors({'Num': num, 'Wire': wire})
+
+        def validate(model, metamodel):
+            # model processor (runs for every model newly loaded by a load, imported ones included)
+            for d in model.defs:
+                if d.name == 'badmodel':
+                    raise TextXError('model rejected by the validator')
+            model.validated = True
+        mm.register_model_processor(validate)
     return mm
 
 
@@ -101,7 +109,7 @@ def dump(v, depth=0):
                 items.append((k, [None if y is None else [type(y).__name__, getattr(y, 'name', None)] for y in xs]))
             else:
                 items.append((k, dump(x, depth + 1)))
-        extra = sorted(k for k in getattr(v, '__dict__', {}) if k in ('processed', 'inited'))
+        extra = sorted(k for k in getattr(v, '__dict__', {}) if k in ('processed', 'inited', 'validated'))
         return [cls.__name__, sorted(items, key=lambda t: t[0]), extra]
     if isinstance(v, list):
         return ['list'] + [dump(x, depth + 1) for x in v]
